@@ -156,4 +156,7 @@ def _add_os_path_join(module_context, start_leaf, bracket_start):
         return check(searched_node.children[0], [])
     elif searched_node.type == 'error_node':
         # Stuff like `join(""`
+        if not arglist_nodes:
+            # The string starts the error node, the bracket is not part of it.
+            return None
         return check(arglist_nodes[-1], [])
